@@ -213,6 +213,127 @@ AMOUNT_CTORS = re.compile(r"zcash_protocol::value::(Zatoshis|ZatBalance)::(from_
 UNCHECKED = re.compile(r"zcash_protocol::value::(Zatoshis|ZatBalance)::(const_from_u64|const_from_i64)$")
 
 
+def rule_version_table(chk, w):
+    """The header codec is a table: TxVersion::read accepts a (version number, version group id) pair
+    for a variant exactly when TxVersion::header / version_group_id emit that pair for it. Read off
+    the MIR: the reader's loop-free paths with the values its two switches take, the writer's two
+    per-variant constant tables."""
+    import guards as G
+    T_ = "zcash_primitives::transaction::"
+    rd = w.by_p.get(T_ + "TxVersion::read", [])
+    hd = w.by_p.get(T_ + "TxVersion::header", [])
+    vg = w.by_p.get(T_ + "TxVersion::version_group_id", [])
+    adt = w.adts.get(T_ + "TxVersion")
+    if len(rd) != 1 or len(hd) != 1 or len(vg) != 1 or not adt:
+        chk.fail("VERSION", "missing", "TxVersion::read / header / version_group_id not found")
+        return
+    names = [v["name"] for v in adt["variants"]]
+    b, du = rd[0].body, defuse.DefUse(rd[0].body)
+    try:
+        paths = G.loopfree_paths(b)
+    except ValueError as e:
+        chk.fail("VERSION", "paths", "TxVersion::read is not loop-free (%s)" % e, rd[0].span.loc())
+        return
+    reader = {}
+    for taken, blocks in paths:
+        outs = {s.rv.agg[2] for bi in blocks for s in b.blocks[bi].stmts
+                if s.kind == "=" and s.rv.kind == "agg" and s.rv.agg[0] == "adt" and s.rv.agg[1] == T_ + "TxVersion"}
+        if len(outs) != 1:
+            continue
+        var = next(iter(outs))
+        ver, grp, over = None, None, None
+        for sw, v in taken:
+            o = du.origin(b.blocks[sw].term.discr)
+            t = defuse.show(o) if o[0] != "disc" else "disc(%s)" % defuse.show(o[1])
+            if t.startswith("disc(branch("):
+                continue
+            if re.search(r"Shr 31\) Eq 1\)$", t):
+                over = (v != 0)
+            elif re.search(r"BitAnd 2147483647\)$", t) and isinstance(v, int):
+                ver = v
+            elif re.match(r"^\(branch\(read_u32_le\(&arg0\)\) as Continue\)\.0$", t) and isinstance(v, int):
+                grp = v
+        reader.setdefault(var, set()).add((over, ver, grp))
+    # writer tables
+
+    def arm_consts(f, dst):
+        bb_, dd = f.body, defuse.DefUse(f.body)
+        out = {}
+        for blk in bb_.blocks:
+            t = blk.term
+            if t.kind == "switch" and len(t.arms) >= 4:
+                for v, tb in t.arms:
+                    for s in bb_.blocks[tb].stmts:
+                        if s.kind == "=" and not s.place.proj and s.rv.kind == "use" and s.rv.ops[0].kind == "const" and \
+                                (dst is None or s.place.local == dst):
+                            if isinstance(v, int) and v < len(names):
+                                out[names[v]] = s.rv.ops[0].info.get("v")
+        return out
+    groups = arm_consts(vg[0], 0)
+    vers = arm_consts(hd[0], None)
+    ok_all = True
+    for var in names:
+        if var == "Sprout":
+            continue
+        got = reader.get(var, set())
+        want = {(True, vers.get(var), groups.get(var))}
+        if got == want and None not in next(iter(want)):
+            chk.ok("VERSION", "TxVersion::%s: read accepts exactly (overwintered, version %d, group id %#x), the pair "
+                   "header() / version_group_id() emit" % (var, vers[var], groups[var]), sample=(var == "V5"))
+        else:
+            ok_all = False
+            chk.fail("VERSION", "TxVersion::" + var, "TxVersion::read yields %s for %s but the writer emits (overwintered, "
+                     "version %s, group id %s)" % (var, sorted(got, key=str), vers.get(var), groups.get(var)),
+                     rd[0].span.loc())
+    return ok_all
+
+
+def rule_limit(chk, w):
+    """Whatever the writers emit must parse: a reader may not refuse a length or count it has read
+    from the stream by comparing it with a constant (CompactSize canonicity and its global bound live
+    in zcash_encoding and are rule CANON's). The only such tests on the pinned tree are Block::read's
+    "at least one transaction" checks, which serve as the rule's positive matches."""
+    import guards as G
+    n_ctrl = 0
+    bad = []
+    for f in sorted(w.fns.values(), key=lambda f: f.p):
+        if f.crate.name not in ("zcash_primitives", "zcash_transparent") or vc.is_test(f) or not re.search(r"::read", f.p):
+            continue
+        b = f.body
+        du = None
+        for bi, blk in enumerate(b.blocks):
+            if blk.cleanup:
+                continue
+            for s in blk.stmts:
+                if not (s.kind == "=" and s.rv.kind == "agg" and s.rv.agg[0] == "adt" and
+                        s.rv.agg[1] == "core::result::Result" and s.rv.agg[2] == "Err"):
+                    continue
+                du = du or defuse.DefUse(b)
+                for sw, v, _tb in G.edge_conditions(b, bi):
+                    o = du.origin(b.blocks[sw].term.discr)
+                    t = defuse.show(o)
+                    m = re.search(r"\((.*(?:CompactSize::read|read_t\(|CompactSize::read_t).*) (Gt|Ge|Lt|Le|Ne|Eq) (\d+)\)$", t) or \
+                        re.search(r"\(((?:.*read\(&.*)) (Gt|Ge|Lt|Le) (\d+)\)$", t)
+                    if not m:
+                        continue
+                    if m.group(2) == "Eq" and m.group(3) == "0" and f.p.endswith("block::Block::read"):
+                        n_ctrl += 1
+                        continue
+                    bad.append((f, s.span.loc(), t[:120]))
+    chk.analysed["limit_positive_matches"] = n_ctrl
+    if n_ctrl < 1:
+        chk.fail("LIMIT", "control", "the rule no longer matches Block::read's transaction-count tests: its pattern "
+                 "has gone stale")
+    else:
+        chk.ok("LIMIT", "the pattern matches Block::read's %d transaction-count tests (positive control)" % n_ctrl)
+    if bad:
+        for f, loc, t in bad:
+            chk.fail("LIMIT", "%s" % short(f.p), "%s refuses input when `%s`: a length the writer can emit no longer parses"
+                     % (short(f.p), t), loc)
+    else:
+        chk.ok("LIMIT", "no codec reader refuses a length or count read from the stream against a constant", sample=True)
+
+
 def rule_amount(chk, w, reached):
     n = 0
     for fid in sorted(reached):
@@ -242,6 +363,30 @@ def rule_amount(chk, w, reached):
                 chk.fail("AMOUNT", "%s#%d" % (f.p, ordn), "%s continues (returns %s) although %s "
                          "rejected the amount" % (short(f.p), sorted(rets), p.rsplit("::", 1)[-1]),
                          t.span.loc())
+    # signedness: which amounts may be negative is the protocol's (vpub_old / vpub_new and output values
+    # are non-negative, value balances are signed); each reader uses the constructor of that range
+    SIGN = {"components::sprout::JsDescription::read": "nonnegative", "bundle::TxOut::read": "nonnegative",
+            "transaction::Transaction::read_amount": "signed", "read_zip233_amount": "nonnegative"}
+    seen_fn = set()
+    for f in sorted(w.fns.values(), key=lambda f: f.p):
+        if f.crate.name not in ("zcash_primitives", "zcash_transparent") or vc.is_test(f) or f.is_closure() or \
+                not re.search(r"::read", f.p):
+            continue
+        for bb, t in f.body.calls():
+            if f.body.blocks[bb].cleanup or t.callee.indirect is not None or not AMOUNT_CTORS.search(t.callee.target_p()):
+                continue
+            ctor = t.callee.target_p().rsplit("::", 1)[-1]
+            kind = "signed" if ctor in ("from_i64_le_bytes", "from_i64") else "nonnegative"
+            want = next((v for k_, v in SIGN.items() if f.p.endswith(k_)), None)
+            seen_fn.add(f.p)
+            if want is None:
+                chk.fail("AMOUNT", "%s/unlisted" % short(f.p), "%s parses an amount (%s) but is not in the signedness "
+                         "table of this rule" % (short(f.p), ctor), t.span.loc())
+            elif want == kind:
+                chk.ok("AMOUNT", "%s parses its %s amount with %s" % (short(f.p), want, ctor))
+            else:
+                chk.fail("AMOUNT", "%s/sign" % short(f.p), "%s parses an amount that must be %s with the %s constructor "
+                         "%s: values outside the field's range are accepted" % (short(f.p), want, kind, ctor), t.span.loc())
     # every amount-typed event of the transaction layouts is a checked read
     for nm in (TB + "TxOut::read", T + "Transaction::read_amount"):
         f = w.by_p.get(nm, [])
@@ -689,6 +834,8 @@ def main(tier):
                    "constructors", "reviewed panic-site arguments listed in rules/c03.py"]
     chk.rule("WIRE", "writer layouts are reader layouts, field by field", floor=23)
     chk.rule("DISPATCH", "read / write / from_data agree on the version dispatch", floor=7)
+    chk.rule("VERSION", "TxVersion::read accepts exactly the (version, group id) pairs the writer emits", floor=4)
+    chk.rule("LIMIT", "readers do not refuse lengths the writers can emit", floor=2)
     chk.rule("AMOUNT", "amounts are parsed through range-checked constructors; failure is Err", floor=7)
     chk.rule("CANON", "CompactSize readers are canonical and bounded", floor=4)
     chk.rule("HASH", "header hash / v1-v4 txid are SHA-256d of the serialisation", floor=8)
@@ -699,6 +846,8 @@ def main(tier):
     w = zf.World(extract.facts_dir("all"))
     attr = rule_wire(chk, w)
     rule_dispatch(chk, w)
+    rule_version_table(chk, w)
+    rule_limit(chk, w)
     canon_ok = rule_canon(chk, w)
     rule_hash(chk, w)
     g = guards(chk, w, canon_ok)
